@@ -5,6 +5,7 @@ exit 1  a violation not listed in known_findings.json:  VIOLATION property=<id> 
 exit 2  machinery failure (TLC crash, design-level model violated, unparsable log)
 """
 import argparse
+import fnmatch
 import importlib
 import json
 import os
@@ -52,9 +53,9 @@ def match_finding(findings, prop, v):
             continue
         if f.get("clause") != v.get("clause"):
             continue
-        if f.get("op") not in (None, "*") and f.get("op") != v.get("op"):
+        if f.get("op") not in (None, "*") and not fnmatch.fnmatchcase(str(v.get("op")), f["op"]):
             continue
-        if f.get("where") not in (None, "*") and f.get("where") != v.get("where"):
+        if f.get("where") not in (None, "*") and not fnmatch.fnmatchcase(str(v.get("where")), f["where"]):
             continue
         return f
     return None
